@@ -338,7 +338,7 @@ TRIGGERS = {
     "neg_int_matrix": _trig("neg_int_matrix"),
     "neg_tensor_entries": _trig("neg_tensor_entries"),
     "stepped": _trig("stepped"),
-    "has_BatchRepeat": _has_class("BatchRepeat"),
+    "has_BatchRepeat": lambda case: _has_class("BatchRepeat")(case) or R.built_has_class(case["recipe"], "BatchRepeatLinearOperator"),
     "has_Cat": _has_class("Cat"),
     "has_BlockDiag": _has_class("BlockDiag"),
     "has_BlockInterleaved": _has_class("BlockInterleaved"),
